@@ -20,23 +20,41 @@ Definition c14_ce_ttl : list op :=
 Example c14_refuted_ttl : c14_holds c14_ce_ttl = (false, 1).
 Proof. vm_compute. reflexivity. Qed.
 
-(* bit 2, F-ID-ALIAS (candidate defect of the library): datetime _ids with sub-millisecond
-   precision.  The second insert is accepted (the store key is the raw datetime 1500us, not
-   equal to 1000us) but the stored document is patched to _id = 1000us, the first document's
-   _id.  delete_one({x: 2}) finds the second document, reads ITS _id and deletes the entry
-   stored under that key: the FIRST document ({x: 1}), which does not match the filter. *)
+(* WAS a counterexample for bit 2, F-ID-ALIAS (defect of the library, now repaired): datetime
+   _ids with sub-millisecond precision.  The second insert used to be accepted (the store key
+   was the raw datetime 1500us, not equal to 1000us) while the stored document was patched to
+   _id = 1000us, the first document's _id; delete_one({x: 2}) then deleted the FIRST document.
+   The store is now keyed by the normalised _id: the second insert is a DuplicateKeyError,
+   delete_one({x: 2}) matches nothing, the predicate holds, inside the guard. *)
 Definition c14_ce_alias : list op :=
   [OInsertOne (VDoc [("_id", VDate 1000 None); ("x", VInt 1)]);
    OInsertOne (VDoc [("_id", VDate 1500 None); ("x", VInt 2)]);
    ODelete (VDoc [("x", VInt 2)]) false].
-Example c14_refuted_alias : c14_holds c14_ce_alias = (false, 2).
+Example c14_alias_now_holds : c14_holds c14_ce_alias = (true, 0).
 Proof. vm_compute. reflexivity. Qed.
-Example c14_refuted_alias_store :
+Example c14_alias_now_holds_store :
   map (fun ob : obs => snd (fst ob)) (model_obs false empty_coll c14_ce_alias) =
   [ [(VDate 1000 None, VDoc [("_id", VDate 1000 None); ("x", VInt 1)])];
-    [(VDate 1000 None, VDoc [("_id", VDate 1000 None); ("x", VInt 1)]);
-     (VDate 1500 None, VDoc [("_id", VDate 1000 None); ("x", VInt 2)])];
-    [(VDate 1500 None, VDoc [("_id", VDate 1000 None); ("x", VInt 2)])] ].
+    [(VDate 1000 None, VDoc [("_id", VDate 1000 None); ("x", VInt 1)])];
+    [(VDate 1000 None, VDoc [("_id", VDate 1000 None); ("x", VInt 1)])] ].
+Proof. vm_compute. reflexivity. Qed.
+
+(* bit 2, what is left of F-ID-ALIAS (the C05 finding F-ID-RETYPE seen through C14): an update
+   may rewrite _id with a ==-equal value (1 -> True).  find_one_and_delete then addresses the
+   document by {_id: True}; it removes the right entry (True == 1), but the entry removed is
+   stored under 1, which is not BSON-equal to the _id (True) of the target document. *)
+Definition c14_ce_retype : list op :=
+  [OInsertOne (VDoc [("_id", VInt 1); ("x", VInt 1)]);
+   OUpdate (VDoc [("x", VInt 1)])
+           (VDoc [("$set", VDoc [("_id", VBool true); ("x", VInt 2)])]) false false;
+   OFindAndModify (VDoc []) None [] FamDelete].
+Example c14_refuted_retype : c14_holds c14_ce_retype = (false, 2).
+Proof. vm_compute. reflexivity. Qed.
+Example c14_refuted_retype_store :
+  map (fun ob : obs => snd (fst ob)) (model_obs false empty_coll c14_ce_retype) =
+  [ [(VInt 1, VDoc [("_id", VInt 1); ("x", VInt 1)])];
+    [(VInt 1, VDoc [("_id", VBool true); ("x", VInt 2)])];
+    [] ].
 Proof. vm_compute. reflexivity. Qed.
 
 (* bit 4, model-only: an _id sub-document with a repeated field name is not == to itself;
